@@ -34,6 +34,8 @@ RULES = [
     'become explicit bindings; an effectful closure that is stored or returned is Unknown',
     'constructor calls of teneva classes are inlined at the call site (self.x renamed to <obj>.x); generator fields of self '
     'are implicit parameters of the methods',
+    'a default value computed by a call is charged to the function entry: numpy.random.<x>(..) / random.<x>(..) is a '
+    'GlobalDraw, a clock or a generator constructor is Unknown, numpy / builtin calls are effect free, anything else Unknown',
     'implicit exceptions raised inside NumPy are not modelled outside try blocks (they abort the call and are functions of '
     'the data); inside a try block every statement may raise',
 ]
@@ -1547,9 +1549,38 @@ class Tr:
             if dd and dd.split('.')[0] == 'numba':
                 continue
             out.append(self.U(f.node, 'decorated function'))
-        if f.vararg and False:
-            pass
+        out += self.default_value_events()
         return seq(out + self.stmts(f.node.body))
+
+    def default_value_events(self):
+        """Default values are evaluated once, when the def statement runs; a default that is computed by a call (anything
+        but a constant, a literal or a plain reference) is part of every call that omits the argument, so its events are
+        charged to the function entry (np.random.<x>(..) / random.<x>(..) -> GlobalDraw, a clock -> Unknown, ...)."""
+        f = self.fn
+        a = f.node.args
+        out = []
+        for d in list(a.defaults) + [x for x in a.kw_defaults if x is not None]:
+            if isinstance(d, ast.Lambda):
+                continue                      # a closure: handled as FdClos where the parameter is called
+            if any(isinstance(x, (ast.Call, ast.Await, ast.Yield, ast.YieldFrom, ast.NamedExpr)) for x in ast.walk(d)):
+                for x in ast.walk(d):
+                    if isinstance(x, ast.Call):
+                        dd = self.dotted(x.func)
+                        if dd and (dd.startswith('numpy.random') or dd == 'random' or dd.startswith('random.')) \
+                                and dd not in GEN_CTORS:
+                            out.append(('ev', ('GlobalDraw', self.P.site(f, x, f'default value computed by {dd}(..)'))))
+                        elif dd in GEN_CTORS:
+                            out.append(self.U(x, 'generator object created as a default value (shared by all calls)'))
+                        elif dd in CLOCKS:
+                            out.append(self.U(x, f'clock {dd} in a default value'))
+                        elif dd and dd.split('.')[0] in PURE_ROOTS:
+                            pass
+                        elif isinstance(x.func, ast.Name) and hasattr(builtins, x.func.id) and x.func.id not in BAD_BUILTINS \
+                                and x.func.id not in self.m.funcs and x.func.id not in self.m.imports:
+                            pass
+                        else:
+                            out.append(self.U(x, 'default value computed by a call the translator does not know'))
+        return out
 
 
 RAND_PINNED = ("[If(test=BoolOp(op=Or(), values=[Compare(left=Name(id='seed', ctx=Load()), ops=[Is()], "
